@@ -2661,30 +2661,46 @@ class Processor:
         # author of ruamel.yaml, to resolve how to update all references to an
         # Anchor throughout the parsed data structure.
         def recurse(data, parent, parentref, reference_node, replacement_node):
+            # Only a node which really carries an Anchor can be referenced
+            # from elsewhere in a parsed document.  Any other node is replaced
+            # solely at (parent, parentref) because object identity is not
+            # meaningful for unanchored scalars (the interpreter shares small
+            # integers, booleans, None, and short strings).
+            is_shared = Anchors.get_node_anchor(reference_node) is not None
             if isinstance(data, (CommentedMap, ryod)):
-                for i, k in [
-                        (idx, key) for idx, key in enumerate(data.keys())
-                        if key is reference_node
-                ]:
-                    data.insert(i, replacement_node, data.pop(k))
+                if is_shared:
+                    for i, k in [
+                            (idx, key) for idx, key in enumerate(data.keys())
+                            if key is reference_node
+                    ]:
+                        data.insert(i, replacement_node, data.pop(k))
                 for k, val in data.non_merged_items():
                     if val is reference_node:
-                        if (hasattr(val, "anchor") or
+                        if (is_shared or
                                 (data is parent and k == parentref)):
                             data[k] = replacement_node
                     else:
                         recurse(val, parent, parentref, reference_node,
                                 replacement_node)
             elif isinstance(data, (CommentedSeq, list)):
+                target_idx = parentref
+                if (data is parent and isinstance(parentref, int)
+                        and parentref < 0):
+                    target_idx = len(data) + parentref
                 for idx, item in enumerate(data):
-                    if data is parent and item is reference_node:
-                        data[idx] = replacement_node
+                    if item is reference_node:
+                        if (is_shared or
+                                (data is parent and idx == target_idx)):
+                            data[idx] = replacement_node
                     else:
                         recurse(item, parent, parentref, reference_node,
                                 replacement_node)
             elif isinstance(data, (CommentedSet, set)):
-                data.discard(reference_node)
-                data.add(replacement_node)
+                if data is parent or (
+                    is_shared and any(ele is reference_node for ele in data)
+                ):
+                    data.discard(reference_node)
+                    data.add(replacement_node)
             elif isinstance(data, OrderedDict):
                 # Manual key (re)ordering is necessary and YMKs are not
                 # supported.
